@@ -97,6 +97,8 @@ _RX = [
     ("mssql2000", re.compile(r"^0[xX]0100([0-9a-fA-F]{8})([0-9a-fA-F]{40})([0-9a-fA-F]{40})$")),
     ("mssql2005", re.compile(r"^0[xX]0100([0-9a-fA-F]{8})([0-9a-fA-F]{40})$")),
     ("oracle11", re.compile(r"^S:([0-9a-fA-F]{40})([0-9a-fA-F]{20})$", re.I)),
+    ("django_des_crypt", re.compile(rf"^crypt\$({_H}*)\$({_H}{{2}})({_H}{{11}})$")),
+    ("bigcrypt", re.compile(rf"^({_H}{{2}})((?:{_H}{{11}})+)$")),
     ("scram", re.compile(r"^\$scram\$([ \t+_0-9]+)\$([^$]*)\$([^$]+)$")),
     ("cisco_type7", re.compile(r"^([ \t+_0-9]{2})((?:[0-9A-Fa-f]{2})*)$")),
     ("fshp", re.compile(r"^\{FSHP(\d+)\|(\d+)\|(\d+)\}([A-Za-z0-9+/]+={0,3})$")),
@@ -241,6 +243,15 @@ def _decode(name, m):
         return (name, (), _hex(g[0]), _hex(g[1]))
     if name == "oracle11":
         return (name, (), _hex(g[1]), _hex(g[0]))
+    if name == "django_des_crypt":
+        # 'crypt$<salt>$<des_crypt hash>'; Django >= 1.4 also writes an EMPTY salt field (the salt is the hash's first two characters
+        # anyway) -- a documented second spelling of the same record; a non-empty field must agree with the hash
+        # (Django 1.0 stored up to five characters there, of which only the first two -- repeated in the hash -- are the salt)
+        if g[0] and g[0][:2] != g[1]:
+            raise ValueError
+        return (name, (), g[1], g[2])
+    if name == "bigcrypt":
+        return (name, (), g[0], g[1])
     if name == "scram":
         pairs = []
         for part in g[2].split(","):
